@@ -384,3 +384,20 @@ Proof.
     + rewrite E1, L. rewrite (F2 k1) by exact N. lia.
     + rewrite <- (F1 k2) by congruence. rewrite E2, L. lia.
 Qed.
+
+(* the two generic facts, for the blocking pops *)
+Theorem bpop_block_end (O : Type) left keys t0 t (evs : list (Z * (db -> O * db))) d res tend evs' d' outs :
+  0 <= t ->
+  block (bpop_poll left keys) t0 t evs d = (res, tend, evs', d', outs) ->
+  t0 + 100 <= tend <= t0 + block_timer_ms t /\ (res = None <-> tend = t0 + block_timer_ms t).
+Proof. exact (block_end (bpop_poll left keys) t0 t evs d res tend evs' d' outs). Qed.
+
+Theorem bpop_block_prompt (O : Type) left keys t0 t te (f : db -> O * db) d d' r :
+  t0 <= te ->
+  let i := (te - t0) / 100 + 1 in
+  i <= Z.pos (block_ticks t) ->
+  (forall tt, t0 < tt <= te -> bpop_poll left keys d tt = None) ->
+  bpop_poll left keys (snd (f d)) (t0 + 100 * i) = Some (r, d') ->
+  block (bpop_poll left keys) t0 t [(te, f)] d = (Some r, t0 + 100 * i, [], d', [fst (f d)])
+  /\ te < t0 + 100 * i <= te + 100.
+Proof. exact (block_prompt (bpop_poll left keys) t0 t te f d d' r). Qed.
